@@ -172,3 +172,14 @@ pub fn apply_hints(stream: &mut [Tk], hints: &[u8]) -> bool {
     }
     any
 }
+
+/// French only: true when the documented new/nine heuristic really set a `neuf` of this text aside
+/// (annotation flag on a `neuf` token, and one of un/le/du/l' present). Such texts are outside the
+/// domain of the round-trip oracles (the word is an adjective there by the library's documented rule).
+pub fn neuf_set_aside(lang_code: &str, text: &str) -> bool {
+    if lang_code != "fr" {
+        return false;
+    }
+    let t = annotated(text, lang("fr"));
+    t.iter().any(|x| x.nan && x.lowercase == "neuf") && t.iter().any(|x| matches!(x.lowercase.as_str(), "un" | "le" | "du" | "l'"))
+}
